@@ -31,32 +31,32 @@ P("C02",
   assumptions=["non-critical extended attributes are generated only as incidental filler (they must never decide anything, reported by the plugin or not); a non-critical plugin-name attribute is outside the statement and not generated"])
 
 P("C03",
-  technique="model-based PBT: generated placements of chain certificates into typed named stores x statement store lists; set-semantics oracle + call-log invariant of an instrumented trust store; scripted and real directory-backed stores; verifier instances reused across verifications",
+  technique="model-based PBT: generated placements of chain certificates into typed named stores x statement store lists; set-semantics oracle + call-log invariant of an instrumented trust store; scripted and real directory-backed stores; verifier instances reused across verifications; eight goroutines verifying through one verifier over the real store against the sequential model",
   level_text="Exploration: authenticity verdict and the exact (type,name) sequence of trust-store loads compared with a set-semantics model over generated placements, multi-statement documents, both schemes and formats.",
   level_note="Trusts the instrumented trust store mock; a sub-family runs against the real directory-backed store.",
   health={"auth=pass": 30, "auth=fail": 30, "decoy-wrong-type": 10, "decoy-unlisted": 10, "decoy-other-statement": 10, "listed-store-error": 10, "real-directory-store": 10, "verification-plugin=ti": 100, "scope-case-twin-selected": 100, "plugin-runs-after-logged-authenticity-failure": 50, "concurrent-verifications": 1, "listed-store-is-symlink": 50, "listed-store-bundle-ends-in-leaf": 50})
 
 P("C04",
-  technique="model-based + metamorphic PBT: structured subject/identity generators, own RFC 4514 renderer with generated spacing/alias/escaping; subset oracle on structured data; permutation/spacing/alias invariance",
+  technique="model-based + metamorphic PBT: structured subject/identity generators, own RFC 4514 renderer with generated spacing/alias/escaping; subset oracle on structured data; permutation/spacing/alias invariance; identity lists edited after construction (one-sided oracle); verifier reuse across an OCI and a same-named blob statement",
   level_text="Exploration: verdicts of the identity check on generated leaf/CA subjects and identity lists compared with a subset model evaluated on the structured form (the harness never parses DNs), plus metamorphic invariances.",
   level_note="Trusts Go's pkix RDN encoding and the harness's escaper (cross-checked by the exact-match positive class).",
   health={"class=match": 30, "class=subset": 30, "class=superset": 20, "class=nearmiss": 20, "class=ca-subject": 20, "class=uninterpretable": 10, "class=wildcard": 5, "class=no-x509-identity": 5, "reused-verifier": 20, "blob-statement-with-same-name": 100, "late-mixed-invalid-and-matching": 30, "identity-with-empty-value": 100, "identity-empty-value-against-valued-attribute": 10},
   fuzz=[{"name": "FuzzC04_Identities", "seconds": 180}])
 
 P("C05",
-  technique="bounded-exhaustive enumeration of all result vectors {OK,NonRevokable,Unknown,Revoked}^n, n<=4 x action x interface x scheme, plus rapid-generated decorations; aggregation oracle + received-options check of a scripted validator",
+  technique="bounded-exhaustive enumeration of all result vectors {OK,NonRevokable,Unknown,Revoked}^n, n<=4 x action x interface x scheme, plus rapid-generated decorations; aggregation oracle + received-options check of a scripted validator; generated chain shapes (empty leaf subject, expired non-leaf), context cancelled by the scripted validator, optional identity-only plugin",
   level_text="Exhaustive over the 340 result vectors x {enforce,log,skip} x both validator interfaces x both schemes (finite space, fully enumerated), sampled over method annotations and server errors.",
   level_note="Trusts the scripted validator to record the options it received; result vectors have the chain's length (validator contract).",
   health={"final=ok": 10, "final=revoked": 10, "final=unknown": 10, "validator-error": 5, "action=skip": 10, "iface=client": 10, "subjects=empty-leaf": 100, "context-cancelled-during-check": 50, "validity=expired-nonleaf": 100, "identity-only-plugin": 100, "decor=6": 100})
 
 P("C06",
-  technique="model-based PBT: generated expiry/signing-time/validity-window placements and RFC 3161 countersignatures from an in-process TSA; decision model of the statement; both-sides-data boundaries tested exactly",
+  technique="model-based PBT: generated expiry/signing-time/validity-window placements and RFC 3161 countersignatures from an in-process TSA; decision model of the statement; both-sides-data boundaries tested exactly; generated revocation action, constructor and trust-store implementation (scripted / directory-backed)",
   level_text="Exploration over time placements (margins around the wall clock, exact boundaries where both sides are data) and countersignature situations produced by an in-process TSA.",
   level_note="Trusts the in-process TSA port and tspclient-go's CMS verification; no assertion at exact wall-clock instants.",
   health={"expiry=past": 10, "expiry=future": 10, "scheme=sa": 20, "tsa=applies": 30, "token=valid": 10, "token=absent": 5, "token=wrong-imprint": 5, "token=untrusted-tsa": 5, "ts=pass": 10, "ts=fail": 10, "token=ca-as-tsa": 10, "token=keyenc-only": 10, "revoked-tsa-under-revocation-skip": 5, "tsarev=revoked-later": 10, "constructor=legacy": 100, "real-directory-store": 100})
 
 P("C07",
-  technique="round-trip PBT: sign with the real signing API (local + honest in-process plugin signers) then verify; payload/digest/expiry/descriptor/metadata compared with the harness's own computation",
+  technique="round-trip PBT: sign with the real signing API (local + honest in-process plugin signers) then verify; payload/digest/expiry/descriptor/metadata compared with the harness's own computation; reused plugin signer across keys, earlier untrusted signature of the other format, large metadata through the library's repository client, failing blob sources",
   level_text="Exploration: full sign->verify round trips over key specs x formats x signer kinds x OCI/blob targets x metadata x expiry; every observable the statement names is recomputed independently.",
   level_note="Trusts Go's crypto and JSON; JWS descriptor sizes are bounded by 2^53 (known finding F13 in a dependency).",
   health={"kind=oci": 20, "kind=blob": 20, "signer=local": 10, "signer=plugin-raw": 10, "signer=plugin-envelope": 10, "format=jws": 20, "format=cose": 20, "artifact-annotations-empty-map": 20, "signer-reused-after-other-key": 20, "verify-omits=media-type": 10, "untrusted-signature-of-other-format-listed-first": 20, "large-metadata-through-registry-client": 6},
@@ -128,7 +128,7 @@ P("C12",
   fuzz=[{"name": "FuzzC12_Envelope", "seconds": 90}, {"name": "FuzzC12_PolicyJSON", "seconds": 60}, {"name": "FuzzC12_ConfigJSON", "seconds": 60}, {"name": "FuzzC12_CacheEntry", "seconds": 60}])
 
 P("C13",
-  technique="model-based PBT over real directory trees: generated store type/name/directory shape/entries; all-or-nothing oracle on exact DER multiset and typed errors; store values reused across in-place content changes",
+  technique="model-based PBT over real directory trees: generated store type/name/directory shape/entries; all-or-nothing oracle on exact DER multiset and typed errors; store values reused across in-place content changes; >1 MiB bundles; twelve goroutines loading twelve stores from one store value",
   level_text="Exploration: GetCertificates on generated trust-store trees compared with a model that knows every entry's validity by construction.",
   level_note="FIFOs/devices are excluded (would block); runs as root, so permission-denied classes are not generated.",
   health={"ok": 50, "fail": 50, "model=succeed": 50, "model=either": 5, "type=ca": 20, "type=signingAuthority": 20, "type=tsa": 20, "type=invalid": 10,
@@ -151,7 +151,7 @@ P("C14",
   timeout={"quick": 1200, "thorough": 7200})
 
 P("C15",
-  technique="stateful model-based PBT (rapid state machine Set/Get/Corrupt/Reopen) against a map model with own entry decoder; native fuzz of cache files in thorough",
+  technique="stateful model-based PBT (rapid state machine Set/Get/Corrupt/Reopen) against a map model with own entry decoder; native fuzz of cache files in thorough; real time crossing a next-update time between two reads of one cache value",
   level_text="Exploration over operation sequences on confusable URL sets with fresh/expired base and delta CRLs and every corruption operator; sandbox-escape and file-name invariants after every step.",
   level_note="Freshness classes keep >= 1 h margins from the wall clock; trusts crypto/x509 CRL parsing for the harness's own decoder.",
   health={"op=set": 100, "op=get-hit": 50, "op=get-miss": 50, "op=corrupt": 50, "op=reopen": 50, "expired": 20, "delta": 20,
@@ -172,7 +172,7 @@ P("C16",
   shards={"quick": 8, "thorough": 16})
 
 P("C17",
-  technique="behaviour-product PBT over real child processes (scriptable fakeplugin): exit code x stdout x stderr x timing for the five commands; response/error-mapping oracle, allocation accounting for the cap, wide-margin time bound",
+  technique="behaviour-product PBT over real child processes (scriptable fakeplugin): exit code x stdout x stderr x timing for the five commands; response/error-mapping oracle, allocation accounting for the cap, wide-margin time bound; calls interleaved at the library's own log statements (schedule owned through the context logger), free-running concurrent calls, fast-failing plugins under deadline judged by their own error",
   level_text="Exploration over generated plugin behaviours with real processes; output cap judged by allocation accounting and by the impossibility of over-cap successes; time bound with a margin (10 s) far from the descendants' 40 s sleep.",
   level_note="The numeric time bound and allocation threshold are the harness's choices (the statement says 'bounded'); arbitrary plugin behaviour is sampled from the listed classes.",
   helpers=["fakeplugin"],
@@ -185,7 +185,7 @@ P("C17",
   timeout={"quick": 900, "thorough": 5400})
 
 P("C18",
-  technique="adversarial-collaborator PBT: scripted in-process signing plugin holding real keys answers with generated edit scripts of the honest answer; independent verifier + verifier-equivalent payload decoding as oracle; native fuzz of payload bytes in thorough",
+  technique="adversarial-collaborator PBT: scripted in-process signing plugin holding real keys answers with generated edit scripts of the honest answer; independent verifier + verifier-equivalent payload decoding as oracle; native fuzz of payload bytes in thorough; two overlapping signings on one signer ordered by the scripted plugin",
   level_text="Exploration: whatever PluginSigner.Sign/SignBlob returns for generated adversarial plugin answers is re-verified independently and compared with the request; a panic or an unchecked signature is a violation.",
   level_note="Trusts the harness's own envelope implementation; the plugin holds real keys so that only the semantic edits differ from an honest answer.",
   health={"path=envelope": 50, "path=raw": 50, "honest": 10, "format=jws": 50, "format=cose": 50, "target=oci": 50, "target=blob": 50,
@@ -201,7 +201,7 @@ P("C18",
   fuzz=[{"name": "FuzzC18_PluginPayload", "seconds": 120}])
 
 P("C19",
-  technique="stateful model-based PBT (rapid state machine of pushes / foreign and hostile referrers / reopen / list / fetch) over an on-disk OCI layout and an in-memory store; multiset model of signatures per subject",
+  technique="stateful model-based PBT (rapid state machine of pushes / foreign and hostile referrers / reopen / list / fetch) over an on-disk OCI layout and an in-memory store; multiset model of signatures per subject; blob-cap boundary with real content; returned slices held across later calls; push descriptors that lie about the artifact type",
   level_text="Exploration over push histories: listing and fetching compared with a model multiset per subject; hostile referrers must be refused before their content is read (blob-fetch log).",
   level_note="One oci.Store instance per session (oras behaviour); trusts oras-go's store for the non-notation parts.",
   health={"store=disk": 100, "store=memory": 100, "subjects>=2": 100, "subjects-same-content": 50, "reopened": 20,
